@@ -25,13 +25,13 @@ def config(prop, tier):
         cfg["event_weights"] = {"build": 10, "edit": 3, "torn_save": 1, "restore": 1, "delete": 0.5,
                                 "unreadable": 0.5, "duplicate": 1.5, "crash": 1, "spawn": 0.5}
         cfg["mode_weights"] = [4, 3, 3]
-        cfg["runs"] = 160 if tier == "quick" else 4000
+        cfg["runs"] = 140 if tier == "quick" else 4000
     elif prop == "C18":
         cfg["tree_weights"] = [3, 5, 0.5, 0]
         cfg["event_weights"] = {"build": 10, "edit": 1.5, "torn_save": 0.3, "restore": 1.5, "delete": 0.2,
                                 "unreadable": 0.2, "duplicate": 0.5, "crash": 1.5, "spawn": 1}
         cfg["mode_weights"] = [2, 5, 3]
-        cfg["runs"] = 120 if tier == "quick" else 3000
+        cfg["runs"] = 90 if tier == "quick" else 3000
     else:  # C16
         cfg["tree_weights"] = [4, 4, 2, 2]
         cfg["event_weights"] = {"build": 8, "edit": 7, "torn_save": 2.5, "restore": 0.7, "delete": 1,
